@@ -1,11 +1,14 @@
 package replication
 
 import (
+	"strings"
+	"os"
 	"encoding/binary"
 	"fmt"
 	"reflect"
 	"runtime"
 	"sync"
+	"sync/atomic"
 	"testing"
 	"unsafe"
 
@@ -16,8 +19,19 @@ import (
 
 var verifC27Once sync.Once
 
-func verifC27Flag(codec, what string) {
-	verifC27Once.Do(func() { fmt.Printf("VERIF-VIOLATION C27 %s: %s\n", codec, what) })
+// verifC27Tripped is set at the first panic / allocation violation seen in this
+// process. A broken decoder can burn minutes of CPU on a single hostile frame
+// (counts read from shifted bytes), and rapid cannot interrupt a running shrink
+// attempt; so the first violation is reported once with its exact input (also
+// saved as a .bin replay artefact) and every later execution fails at once.
+var verifC27Tripped atomic.Bool
+
+func verifC27Flag(codec, what string, in []byte) {
+	verifC27Once.Do(func() {
+		path := kit.SaveReplay("C27", "TestVerifC27Exchange", "bin", in)
+		fmt.Printf("VERIF-VIOLATION C27 %s: %s on %d-byte input %x (saved %s)\n", codec, what, len(in), verifC27Trunc(in), path)
+		verifC27Tripped.Store(true)
+	})
 }
 
 func verifC27Trunc(b []byte) []byte {
@@ -40,13 +54,16 @@ func verifC27Bound(n int) uint64 {
 
 // verifC27Guard runs dec under a panic guard and the allocation bound.
 func verifC27Guard(rt *rapid.T, codec string, in []byte, dec func([]byte) error) (err error) {
+	if verifC27Tripped.Load() {
+		rt.Fatalf("VERIF-VIOLATION %s: a decoder panic / allocation violation was established earlier in this process (see the first VERIF-VIOLATION line and its .bin artefact)", codec)
+	}
 	bound := verifC27Bound(len(in))
 	var before, after runtime.MemStats
 	runtime.ReadMemStats(&before)
 	func() {
 		defer func() {
 			if r := recover(); r != nil {
-				verifC27Flag(codec, "decoder panicked")
+				verifC27Flag(codec, fmt.Sprintf("decoder panicked (%v)", r), in)
 				rt.Fatalf("VERIF-VIOLATION %s: decoder panicked on %d-byte input %x: %v", codec, len(in), verifC27Trunc(in), r)
 			}
 		}()
@@ -54,7 +71,7 @@ func verifC27Guard(rt *rapid.T, codec string, in []byte, dec func([]byte) error)
 	}()
 	runtime.ReadMemStats(&after)
 	if d := after.TotalAlloc - before.TotalAlloc; d > bound {
-		verifC27Flag(codec, "allocation beyond bound")
+		verifC27Flag(codec, fmt.Sprintf("allocated %d bytes, bound %d,", d, bound), in)
 		rt.Fatalf("VERIF-VIOLATION %s: decoding %d-byte input %x allocated %d bytes (bound %d)", codec, len(in), verifC27Trunc(in), d, bound)
 	}
 	return err
@@ -611,4 +628,32 @@ func verifC27FuzzSeeds() [][]byte {
 		}
 	}
 	return append(seeds, []byte{3, 0, 1}, []byte{3, 1})
+}
+
+// TestVerifC27ExchangeReplayArtefact re-decodes a saved .bin frame
+// (./check C27 --replay <file.bin>).
+func TestVerifC27ExchangeReplayArtefact(t *testing.T) {
+	path := kit.ReplayFile()
+	if !strings.HasSuffix(path, ".bin") {
+		t.Skip("no .bin artefact to replay")
+	}
+	in, err := os.ReadFile(path)
+	if err != nil {
+		t.Fatalf("VERIF-MACHINERY read artefact: %v", err)
+	}
+	var before, after runtime.MemStats
+	runtime.ReadMemStats(&before)
+	func() {
+		defer func() {
+			if r := recover(); r != nil {
+				t.Fatalf("VERIF-VIOLATION exchange decoder panicked on the artefact: %v", r)
+			}
+		}()
+		_, _ = DecodeExchangeBatch(in)
+		_, _ = DecodeExchangeBatchResult(in)
+	}()
+	runtime.ReadMemStats(&after)
+	if d := after.TotalAlloc - before.TotalAlloc; d > 2*verifC27Bound(len(in)) {
+		t.Fatalf("VERIF-VIOLATION decoding the %d-byte artefact allocated %d bytes (bound %d)", len(in), d, 2*verifC27Bound(len(in)))
+	}
 }
